@@ -51,8 +51,8 @@ CHECKS = {
              batches=[dict(profile='svx', flavour='plain', quick=40000, thorough=2000000), dict(profile='svx', flavour='asan', quick=3000, thorough=100000)],
              must_probe=['svx_calls_checked', 'svx_equed_1', 'svx_equed_2', 'svx_equed_3', 'svx_contracting_class', 'svx_unrefined_solves_checked', 'svx_trans_2_NC_fact2', 'svx_trans_1_NR_fact1']),
  'C12': dict(seed_offset=12, level='exploration', rule=RULE_A, props=['C12'],
-             batches=[dict(profile='svx', flavour='plain', quick=40000, thorough=2000000)],
-             must_probe=['svx_rcond_checked', 'svx_rpg_checked', 'svx_info_n_plus_1', 'numbering_ne_storage_order']),
+             batches=[dict(profile='svx', flavour='plain', quick=40000, thorough=2000000), dict(profile='strf', flavour='plain', quick=24000, thorough=1200000)],
+             must_probe=['svx_rcond_checked', 'svx_rpg_checked', 'svx_info_n_plus_1', 'numbering_ne_storage_order', 'gscon_direct_rcond_checked']),
  'C13': dict(seed_offset=13, level='exploration', rule=RULE_A, props=['C13'],
              batches=[dict(profile='svx', flavour='plain', quick=40000, thorough=2000000)],
              must_probe=['svx_berr_checked', 'svx_berr_small_checked', 'svx_ferr_checked']),
@@ -80,7 +80,7 @@ CHECKS = {
                       dict(profile='symleak', flavour='plain', quick=6000, thorough=300000),
                       dict(profile='alloc', flavour='plain', quick=128 * 16, thorough=1024 * 100, S=128, S_thorough=1024)],
              must_probe=['leak_histories_checked', 'workspace_queries', 'illegal_argument_calls', 'workspace_too_small_returns', 'refactorizations', 'factored_calls',
-                         'ordering_calls_leak_checked', 'ordering_calls_empty_adjacency', 'cfg_symmetric_mode', 'alloc_returns_leak_checked', 'returned_info_gt_n'],
+                         'ordering_calls_leak_checked', 'ordering_calls_empty_adjacency', 'helper_conversion_calls_leak_checked', 'helper_conversion_calls_empty_matrix', 'gscon_direct_calls', 'cfg_symmetric_mode', 'alloc_returns_leak_checked', 'returned_info_gt_n'],
              assumptions=["accounting covers every malloc/calloc/realloc/free issued inside a library call (link-time wrappers); thread accounting is the simulator's own (created = finished = joined, checked on every call of every profile)",
                           "runs that end in the abort path are not leak-checked (the process is gone)"]),
  'C18': dict(seed_offset=18, level='exploration',
